@@ -202,11 +202,15 @@ fn raw_c08(u: &mut Unstructured) -> arbitrary::Result<c08::Case> {
         fragments.push((u.arbitrary::<u8>()? & 1, len, u.arbitrary()?));
     }
     let start_seq = (u.arbitrary::<u8>()? & 0x3F, u.arbitrary::<u8>()? & 0x3F);
-    let interleave = u.arbitrary::<u8>()? % 4 == 0;
+    let mode: u8 = u.arbitrary()?;
+    let interleave = mode % 4 == 0;
+    let datagram = mode & 0x10 != 0;
+    let chunk = if mode & 0x20 != 0 { 1 + (mode as u16 >> 6) * 97 } else { 0 };
+    let interrupts: Vec<u16> = if mode & 0x08 != 0 { vec![u.arbitrary()?, u.arbitrary()?] } else { vec![] };
     let mut mutations = vec![];
     while !u.is_empty() && mutations.len() < 6 {
         let i: u16 = u.arbitrary()?;
-        mutations.push(match u.arbitrary::<u8>()? % 8 {
+        mutations.push(match u.arbitrary::<u8>()? % 10 {
             0 => Mutation::Drop(i),
             1 => Mutation::Dup(i),
             2 => Mutation::Swap(i),
@@ -214,10 +218,12 @@ fn raw_c08(u: &mut Unstructured) -> arbitrary::Result<c08::Case> {
             4 => Mutation::ToggleFir(i),
             5 => Mutation::ToggleFin(i),
             6 => Mutation::Seq(i, u.arbitrary()?),
+            7 => Mutation::Broadcast(i, u.arbitrary::<u8>()? % 3),
+            8 => Mutation::Peer(i),
             _ => Mutation::EmptyFrame(i),
         });
     }
-    Ok(c08::Case { rx_buffer, fragments, start_seq, interleave, mutations, chunk: 0 })
+    Ok(c08::Case { rx_buffer, fragments, start_seq, interleave, mutations, chunk, datagram, interrupts })
 }
 
 /// an application fragment given as raw octets: C09 accept=>exact and the C01 no-panic consumers
